@@ -2541,6 +2541,11 @@ class Model:
             except Exception as e:
                 raise ModelError(f"Error when initially flushing junction: {j}") from e
 
+        # The flush changes compartment sizes at the first time index, so source population sizes cached by `update_pars()` before the flush are stale
+        for pop in self.pops:
+            for par in pop.pars:
+                par._source_popsize_cache_time = None
+
     def update_pars(self) -> None:
         """
         Update parameter values
